@@ -166,10 +166,10 @@ theorem nodup_subscribeFinish (rt : Routing) (svc : Nat) (t : Int) (r : Reaction
   all_goals first | exact hn | exact nodup_keys_set _ _ _ hn
 
 /-- the initial SUBSCRIBE exchange: fold and result -/
-theorem sub_exch_spec (rt : Routing) (svc : Nat) (t : Int) (r : Reaction) :
+theorem sub_exch_spec (rt : Routing) (svc : Nat) (t : Int) (r : Reaction) (ht : 0 ≤ t) :
     foldExch rt ⟨subscribeRequest cfg svc t, r⟩ = (subscribeFinish rt svc t r).1
     ∧ (match lastGrant [⟨subscribeRequest cfg svc t, r⟩] with
-       | some (sid, th) => subResOk (subscribeFinish rt svc t r).2 sid (grantedTimeout th t) = true
+       | some (sid, th, w) => subResOk (subscribeFinish rt svc t r).2 sid (grantOf th w) = true
        | none => (excOf (subscribeFinish rt svc t r).2).isSome = true) := by
   cases r with
   | connErr => simp [foldExch, lastGrant, sub_method, sub_sid, subscribeFinish, excOf]
@@ -186,9 +186,10 @@ theorem sub_exch_spec (rt : Routing) (svc : Nat) (t : Int) (r : Reaction) :
           cases hgt : grantedTimeout th t with
           | none => rfl
           | some g => simp [hg g hgt]
+        have hw := sub_wire cfg svc t ht
         rcases hp with ⟨hk, rfl⟩ | hk
-        · simpa [foldExch, lastGrant, sub_method, sub_sid, sub_svc, subscribeFinish, guards_pinned.1, hk] using hres
-        · simpa [foldExch, lastGrant, sub_method, sub_sid, sub_svc, subscribeFinish, guards_pinned.1, hk] using hres
+        · simpa [foldExch, lastGrant, sub_method, sub_sid, sub_svc, hw, grantOf, subscribeFinish, guards_pinned.1, hk] using hres
+        · simpa [foldExch, lastGrant, sub_method, sub_sid, sub_svc, hw, grantOf, subscribeFinish, guards_pinned.1, hk] using hres
     · cases sid <;> simp [foldExch, lastGrant, sub_method, sub_sid, subscribeFinish, excOf, h200]
 
 theorem doSubscribe_ok (rt : Routing) (svc : Nat) (t : Int) (rs : List Reaction)
@@ -200,12 +201,12 @@ theorem doSubscribe_ok (rt : Routing) (svc : Nat) (t : Int) (rs : List Reaction)
   · simp [sub_valid cfg svc t ht]
   · simp [fallbackAdjacent, sub_isRenewal]
   · intro _ _; simp [targetOk, sub_svc, sub_isInitial]
-  · simpa using (sub_exch_spec cfg rt svc t r).1
+  · simpa using (sub_exch_spec cfg rt svc t r ht).1
   · intro _ _
-    have h2 := (sub_exch_spec cfg rt svc t r).2
+    have h2 := (sub_exch_spec cfg rt svc t r ht).2
     simp only [resultOk]
     split at h2
-    · rename_i sid th hl
+    · rename_i sid th w hl
       simp [hl, h2]
     · rename_i hl; simp [hl, h2]
 
@@ -285,7 +286,7 @@ theorem doResubscribe_ok (rt : Routing) (tg : Target) (t : Int) (rs : List React
         · simpa using (ren_exch_spec cfg rt svc sid t sid' th).1
         · intro _ _
           have hres := (ren_exch_spec cfg rt svc sid t sid' th).2
-          simp [resultOk, lastGrant, ren_method, ren_sid, hres]
+          simp [resultOk, lastGrant, ren_method, ren_sid, ren_wire cfg svc t sid ht, grantOf, hres]
       · simp only [ne_eq, h200, not_false_eq_true, if_true]
         have hsub := doSubscribe_ok cfg (erase rt sid) svc t rs' (nodup_keys_erase _ _ hn) ht
         unfold doSubscribe at hsub ⊢
